@@ -13,7 +13,9 @@ Part 2 (E2): breadth-first search over application / management / time histories
         BIPForeign / BIPBBMD objects (virtual clock, perfect network), deduplicated on a canonical state; in every
         state every node broadcasts once and the foreign device table is read, and the lifetime rules of the
         statement are evaluated.  In the "moves" configurations the device may register with either BBMD at any time
-        (both tables then list it for a while); in the "wire" configurations it sits next to the other BBMD.
+        (both tables then list it for a while); in the "wire" configurations it sits next to the other BBMD; in the
+        "3fd-one-table" configurations three devices share a table and the driven one keeps broadcasting after the BBMD
+        has stopped listing it (what the BBMD distributes for it must reach every registered device).
 Part 3 (deterministic sweep): TTL 1..300 with the renewals lost: the instant at which the registration stops
         being served / listed must fall in [TTL, TTL+30 s] after the acknowledgement, and the device must be
         served again after the first renewal that gets through.
@@ -57,7 +59,12 @@ RULE = ("part1: every layout of the family x every node as originator x (FIFO de
         "they change the state).  A state is the canonical snapshot of every BIPBBMD / BIPForeign object (FDT entries with "
         "remaining seconds, status, timers relative to now), the pending task list, the clock phase and the lifetime "
         "monitor (times relative to now, capped where the verdict cannot change any more); the order of FDT entries is kept. "
-        "States that violate an invariant are reported and not expanded.  "
+        "States that violate an invariant are reported and not expanded.  In the '3fd-one-table' configurations three devices "
+        "share one table: a setup history registers them in a stated order (two of them for 60 s), the search starts in the state "
+        "it leaves and drives one [thorough also: two] of them with the alphabet above while the others renew by themselves; every "
+        "state's broadcasts include one from the driven device whether or not the BBMD still lists it (entry deleted, dropped at "
+        "TTL+5 s while the device waits until TTL+30 s): if the BBMD distributes such a broadcast at all, every device registered "
+        "with it and inside its time-to-live must be sent it and be handed it once.  "
         "part3: every TTL 1..300 x registration phase with all renewals lost, probed by a broadcast and a Read-FDT every "
         "0.5 s until TTL+31.5 s (quick: every 0.5 s within 3 s of the acknowledgement, TTL-3..TTL+8 and the last 2 s, every "
         "5 s between), then renewals pass again.")
@@ -78,7 +85,11 @@ ASSUMPTIONS = [
     "NetworkServiceAccessPoint with a tap that passes the same PDU object on); what such a network layer delivers to the application "
     "recorder must be the originator's APDU (global broadcast Who-Is), once per NPDU copy",
     "part 2/3 run on a perfect zero-latency network: the only nondeterminism is the history; datagram loss is limited to the device's own Register-Foreign-Device requests",
-    "instants exactly on a lifetime boundary (within 1 ms) are not judged; whether a BBMD must refuse Distribute-Broadcast from an unregistered sender is not judged",
+    "instants exactly on a lifetime boundary (within 1 ms) are not judged; whether a BBMD must refuse Distribute-Broadcast from a sender it does "
+    "not list (deleted, expired, never registered) is not judged: it may distribute nothing, but if it sends a Forwarded-NPDU for it to anybody "
+    "it performs J.4.5's forwarding function, which includes every device currently in its table - each registered device other than the sender "
+    "that is inside its time-to-live must then be sent the broadcast and be handed it exactly once; who else gets it is not judged "
+    "(duplicates, echo and source always are)",
     "the grace period is the standard's 30 s: an implementation may drop an entry anywhere in [TTL, TTL+30 s]",
 ]
 BOUNDS = {
@@ -86,12 +97,15 @@ BOUNDS = {
              "3 BBMD subnets with one ordinary node each; part2 1 foreign device: closure (histories of any length) "
              "without datagram loss on a two-hop (recorders, and real network layers on every node) and a one-hop internetwork and with the "
              "device on the other BBMD's wire, depth<=7 with "
-             "lost renewals, depth<=4 when the device may move between the two BBMDs (lost renewals included); part3 TTL 1..300 x 2 phases",
+             "lost renewals, depth<=4 when the device may move between the two BBMDs (lost renewals included); 3 devices in one table, one "
+             "driven (TTL 2, lost renewals, deletion, unregistration): depth<=5 after the setup with the driven device in the middle of the "
+             "table, <=4 with it first; part3 TTL 1..300 x 2 phases",
     "thorough": "part1 <=4 subnets, <=3 foreign devices, d<=1 reordering, real network layers above B/IP on the layouts with <=3 subnets; "
                 "part2 1 device: closure without loss (also with real network layers: every node two-hop, BBMDs one-hop), with lost renewals "
                 "closure attempted on the two-hop internetwork (depth<=70, reported per configuration) and depth<=8 one-hop; "
                 "moving between two BBMDs depth<=6 (two-hop), <=5 (one-hop, lost renewals; device on a third BBMD's wire); "
-                "2 devices: depth<=8 without loss, <=6 with lost renewals; part3 TTL 1..300 x 4 phases, every 0.5 s",
+                "2 devices: depth<=8 without loss, <=6 with lost renewals; 3 devices in one table: one driven depth<=6 (TTL 1..3, mid-table) "
+                "and <=7 (TTL 2, first in table) with lost renewals, two driven depth<=5 without loss; part3 TTL 1..300 x 4 phases, every 0.5 s",
 }
 
 SUB_OPTS = [(1, 0), (1, 1), (1, 2), (0, 1), (0, 2)]
@@ -429,6 +443,7 @@ class Hist(object):
         self.sys = BipSystem(cfg["layout"])
         self.manager = cfg["manager"]
         self.problems = []          # (signature, detail)
+        self.labels = []            # outcome labels of what was observed (drained by the caller)
         self.trace = []
 
     # ---- alphabet
@@ -438,7 +453,9 @@ class Hist(object):
         ev = []
         lapsing = False
         homes = self.cfg.get("homes")       # BBMDs a device may register with (default: its home BBMD only)
-        for fd in sorted(s.life):
+        # `actors`: the devices whose registration the history drives (default: all); the others stay as the setup
+        # history of the configuration left them (registered, renewing by themselves)
+        for fd in (self.cfg.get("actors") or sorted(s.life)):
             life = s.life[fd]
             for ttl in self.cfg["ttls"]:
                 if homes:
@@ -534,6 +551,8 @@ class Hist(object):
         payload = s.originate(origin)
         s.flush()
         problems, got = judge_broadcast(s, origin, payload, expected, may=mayset, undecided=undecided)
+        if undecided:
+            self._unlisted_sender(origin, payload, n0, must, got, now)
         if origin in s.life and not undecided and any(p[0] == "not-delivered" for p in problems):
             node = s.nodes[origin]
             left = any(e[1] == node.net.name and e[2] == str(node.tuple) and e[4].endswith(payload) for e in s.wire.log[n0:])
@@ -564,6 +583,43 @@ class Hist(object):
             else:
                 sig = "bcast:%s:origin=%s:at=%s" % (prob, kind_of(origin), kind_of(victim))
             self.problems.append((sig, info))
+
+    def _unlisted_sender(self, origin, payload, n0, must, got, now):
+        """The originator is a foreign device that nobody has to serve at this instant (never acknowledged, entry deleted,
+        time-to-live over, unregistered).  If it still believes it is registered it sends a Distribute-Broadcast all the
+        same.  The BBMD may ignore it; if it distributes it at all, every foreign device registered with that BBMD and
+        inside its time-to-live gets it, once (bbmdref.unlisted_sender_rule; duplicates, echo and source were judged by
+        judge_broadcast)."""
+        s = self.sys
+        name = {str(n.tuple): n.ref_addr for n in s.nodes.values()}
+        ids = {n.ref_addr: nid for nid, n in s.nodes.items()}
+        dgrams = [(name.get(e[2], e[2]), name.get(e[3], e[3]), e[4]) for e in s.wire.log[n0:]]
+        registered = {s.nodes[b].ref_addr: set(s.nodes[f].ref_addr for f in must.get(b, ()) if f != origin)
+                      for b in s.order if s.nodes[b].kind == "bbmd"}
+        asked, acted, missed = bbmdref.unlisted_sender_rule(dgrams, s.nodes[origin].ref_addr, payload, registered)
+        status = s.nodes[origin].bip.registrationStatus
+        if not asked:
+            self.labels.append("p2:unserved-sender:status=%s:sends-nothing" % status)
+        for b in asked:
+            cls = s.life[origin].served(now)
+            self.labels.append("p2:unserved-sender:status=%s:serving-it-%s%s:bbmd-%s:registered-others=%d" % (
+                status, cls, "(%s)" % s.life[origin].why(now) if cls == "mustnot" else "",
+                "distributes" if b in acted else "ignores", len(registered[b])))
+        for b in acted:
+            for f in sorted(registered[b]):
+                fid = ids[f]
+                left_out = f in missed.get(b, ())
+                if not left_out and got[fid]:
+                    continue
+                node = s.nodes[fid]
+                self.problems.append((
+                    "fd:not-served-while-registered:status=%s:%s" % (
+                        node.bip.registrationStatus,
+                        "left-out-of-the-distribution-of-an-unlisted-sender's-broadcast" if left_out else "dropped-by-device"),
+                    {"origin": origin, "origin_status": status, "origin_is": s.life[origin].why(now), "bbmd": ids[b], "at": fid,
+                     "now": now, "registered_with_that_bbmd": sorted(ids[x] for x in registered[b]),
+                     "forwarded_to": sorted(ids.get(x, x) for x in (registered[b] - set(missed.get(b, ())))),
+                     "copies": {k: len(v) for k, v in got.items()}, "life": s.life[fid].canon(now)}))
 
     def _probe_read(self, bbmd):
         s = self.sys
@@ -597,9 +653,13 @@ def p2_configs(tier):
     one = {"subnets": [[1, 1], [1, 1]], "fds": [0], "bdt": "full", "mask": "subnet"}
     src = ["o0a", "o1a", "b0", "f0"]
 
-    def cfg(label, layout, mute, sources=src, read=("b0",), ttls=(1, 2, 3), manager="o0a", homes=None):
+    def cfg(label, layout, mute, sources=src, read=("b0",), ttls=(1, 2, 3), manager="o0a", homes=None, setup=None, actors=None):
         c = {"layout": layout, "sources": list(sources), "read": list(read), "manager": manager, "ttls": list(ttls),
              "mute": mute, "label": label}
+        if setup:
+            c["setup"] = [list(e) for e in setup]       # every history begins with these events
+        if actors:
+            c["actors"] = list(actors)                  # the devices the histories drive; the others stay as set up
         if homes:
             # the device may register with any of these BBMDs: histories in which it moves its registration, with and
             # without unregistering first; every one of them is read in every state
@@ -618,6 +678,14 @@ def p2_configs(tier):
     # through NetworkServiceAccessPoint, what the application recorders get is judged too)
     two_nl = dict(two, upper=NSAP_ALL)
     one_nl = dict(one, upper=NSAP_BBMD)
+    # three devices in one table, two of them registered for a long time and left alone, the histories drive the third: its
+    # entry is deleted (it is not told), its renewals are lost (the BBMD drops it 25 s before the device itself gives up),
+    # it unregisters, comes back (then last in the table) - and it broadcasts in every state, listed or not.  The other two
+    # are inside their time-to-live throughout: they are owed every broadcast the BBMD distributes.
+    three = {"subnets": [[1, 1], [1, 1]], "fds": [0, 0, 0], "bdt": "full", "mask": "host"}
+    src3 = ["o1a", "f0", "f2"]
+    mid = [("reg", "f1", 60), ("reg", "f0", 2), ("reg", "f2", 60)]
+    first = [("reg", "f0", 2), ("reg", "f1", 60), ("reg", "f2", 60)]
     if tier == "quick":
         return [
             (cfg("1fd-two-hop", two, False), 60, 100000),
@@ -625,6 +693,8 @@ def p2_configs(tier):
             (cfg("1fd-one-hop", one, False, manager="o1a"), 60, 100000),
             (cfg("1fd-moves-two-hop-lost-renewals", two, True, homes=both), 4, 100000),
             (cfg("1fd-on-peer-wire-two-hop", wired, False), 60, 100000),
+            (cfg("3fd-one-table-driven-device-mid-table-lost-renewals", three, True, sources=src3, ttls=(2,), setup=mid, actors=["f0"]), 5, 100000),
+            (cfg("3fd-one-table-driven-device-first-in-table-lost-renewals", three, True, sources=src3, ttls=(2,), setup=first, actors=["f0"]), 4, 100000),
             (cfg("1fd-two-hop-lost-renewals", two, True), 7, 100000),
         ]
     wired3 = {"subnets": [[1, 1], [1, 0], [1, 1]], "fds": [0], "fdwire": [2], "bdt": "full", "mask": {"0": "subnet", "1": "host", "2": "host"}}
@@ -642,6 +712,9 @@ def p2_configs(tier):
         (cfg("1fd-moves-two-hop", two, False, homes=both), 6, 2000000),
         (cfg("1fd-moves-one-hop-lost-renewals", one, True, manager="o1a", homes=both), 5, 2000000),
         (cfg("1fd-on-third-wire-moves", wired3, False, sources=["o0a", "b1", "o2a", "f0"], homes=both), 5, 2000000),
+        (cfg("3fd-one-table-driven-device-mid-table-lost-renewals", three, True, sources=src3, setup=mid, actors=["f0"]), 6, 2000000),
+        (cfg("3fd-one-table-driven-device-first-in-table-lost-renewals", three, True, sources=src3, ttls=(2,), setup=first, actors=["f0"]), 7, 2000000),
+        (cfg("3fd-one-table-two-driven-devices", three, False, sources=["o1a", "f0", "f1", "f2"], ttls=(2,), setup=mid, actors=["f0", "f2"]), 5, 2000000),
         # last, with whatever is left of part 2's share: closes at about 75 000 states when it is given the time
         (cfg("1fd-two-hop-lost-renewals", two, True), 70, 400000),
     ]
@@ -662,6 +735,13 @@ def p2_expand(item, deadline):
     def note(h, ev, hist):
         acc.transitions += 1
         acc.evaluations += 1
+        for lab in h.labels:
+            acc.outcome(lab)
+            if lab.endswith("sends-nothing"):
+                continue
+            acc.add_info("part2 broadcasts of a device that is not (any longer) owed service and still sends: the BBMD %s" % (
+                "distributed it (every registered device of its table must get it once)" if "bbmd-distributes" in lab else "ignored it"), 1)
+        del h.labels[:]
         for name, msg in h.sys.swallowed():
             acc.swallowed["%s: %s" % (name, msg[:80])] += 1
         for sig, detail in h.problems:
@@ -684,6 +764,7 @@ def p2_expand(item, deadline):
         h = p2_replay(cfg, hist)
         if h.problems:
             raise HarnessError("C13 part2: history %r was clean when generated and fails when replayed: %r" % (hist, h.problems[:1]))
+        del h.labels[:]
         acc.traces += 1
         base = h64(h.sys.canon_state())
         events = h.changing_events() if len(hist) < max_depth else []
@@ -691,6 +772,7 @@ def p2_expand(item, deadline):
         for ev in h.probes():
             if not fresh:
                 h = p2_replay(cfg, hist)
+                del h.labels[:]
                 fresh = True
             h.apply(ev)
             bad = note(h, ev, hist)
@@ -710,6 +792,7 @@ def p2_expand(item, deadline):
         for ev in events:
             if not fresh:
                 h = p2_replay(cfg, hist)
+                del h.labels[:]
             fresh = False
             h.apply(ev)
             bad = note(h, ev, hist)
@@ -724,8 +807,18 @@ def p2_bfs(cfg, depth, cap, deadline, acc):
     """Level-synchronous BFS.  Level L expands the histories of length L; at L == depth only the probes run.
     `closed` means the frontier emptied before the depth bound, with nothing cut short."""
     label = "part2[%s]" % cfg["label"]
-    seen = {h64(Hist(cfg).sys.canon_state())}
-    frontier = [()]
+    # `setup`: a history every history of this configuration begins with (the search starts in the state it leaves; the depth
+    # bound counts what follows).  It is judged like any other history: if it fails there is nothing to search from.
+    root = tuple(tuple(e) for e in cfg.get("setup", ()))
+    h0 = p2_replay(cfg, root)
+    if h0.problems:
+        for sig, detail in h0.problems:
+            acc.fail(sig, {"problem": sig, "detail": detail, "history": list(root), "cfg": cfg["label"]},
+                     {"part": 2, "cfg": cfg, "hist": [list(e) for e in root]})
+        acc.info["%s states" % label] = 0
+        return False
+    seen = {h64(h0.sys.canon_state())}
+    frontier = [root]
     closed = False
     reached = 0
     for level in range(depth + 1):
@@ -739,7 +832,7 @@ def p2_bfs(cfg, depth, cap, deadline, acc):
             acc.cap("%s: state cap %d reached at depth %d" % (label, cap, level))
             break
         n = min(len(frontier), WORKERS * 4)
-        sub = run_shards(p2_expand, [((cfg, depth), c) for c in chunks(frontier, n)], deadline, persistent=True)
+        sub = run_shards(p2_expand, [((cfg, depth + len(root)), c) for c in chunks(frontier, n)], deadline, persistent=True)
         nxt = sub.info.pop("next", [])
         cut = bool(sub.caps)
         acc.merge(sub)
